@@ -112,7 +112,16 @@ def elem_value(cname, k):
 
 def special_value(cname, j):
     """Boundary members of each class: identities, half turns, zero vectors, pure translations."""
-    j = int(j) % 5
+    j = int(j) % 6
+    if j == 5:
+        # a pose whose translation is not finite is still a pose for the list layer
+        if cname in ('SE2', 'SE3'):
+            n = 3 if cname == 'SE2' else 4
+            T = np.eye(n)
+            T[0, -1] = float('nan')
+            T[1, -1] = float('inf')
+            return T
+        j = 1
     if j == 4:
         # a rotation that is valid only within the library's tolerance (residual about 90 eps of
         # the 100 eps allowed): it must survive being read back, which re-validates it
@@ -1029,7 +1038,7 @@ def gen_init(cfg, rng):
 def _new_rec(c, n, cfg, rng):
     rec = {'op': 'new', 'cls': c, 'n': n}
     if rng.random() < cfg.get('special_rate', 0.0):
-        rec['special'] = rng.randrange(5)
+        rec['special'] = rng.randrange(6)
     return rec
 
 
